@@ -26,3 +26,40 @@ PROPS['C07'] = dict(
     stages=[dict(name='seq', bin='pbuf', args=['-prop', 'C07', '-mode', 'seq'], shards=shards(4, 16), par=16)],
     need_counters=['writes', 'reads', 'refused_by_count', 'refused_by_size', 'refused_by_cap'],
 )
+
+PROPS['C20'] = dict(
+    level='exploration',
+    builds={'xor_default': dict(pkg='./cmd/xorchk'),
+            'xor_default_asan': dict(pkg='./cmd/xorchk', asan=True),
+            'xor_old': dict(pkg='./cmd/xorchk', overlay='xorold'),
+            'xor_old_race': dict(pkg='./cmd/xorchk', overlay='xorold', race=True),
+            'xor_old_asan': dict(pkg='./cmd/xorchk', overlay='xorold', asan=True)},
+    stages=[dict(name='subtle', bin='xor_default', args=['-impl', 'subtle'], shards=shards(2, 8), par=16, crash_is_violation=True, crash_key='subtle:crash'),
+            dict(name='subtle-asan', bin='xor_default_asan', args=['-impl', 'subtle-asan'], shards=shards(2, 8), par=16, crash_is_violation=True, crash_key='subtle:crash'),
+            dict(name='wordwise', bin='xor_old', args=['-impl', 'wordwise'], shards=shards(2, 8), par=16, crash_is_violation=True, crash_key='wordwise:crash'),
+            dict(name='wordwise-checkptr', bin='xor_old_race', args=['-impl', 'wordwise-checkptr'], shards=shards(4, 16), par=16, crash_is_violation=True, crash_key='wordwise:crash'),
+            dict(name='wordwise-asan', bin='xor_old_asan', args=['-impl', 'wordwise-asan'], shards=shards(4, 16), par=16, crash_is_violation=True, crash_key='wordwise:crash')],
+    replay_stage='wordwise',
+    need_counters=['calls_subtle', 'calls_wordwise', 'calls_wordwise-asan', 'calls_wordwise-checkptr'],
+)
+
+PROPS['C16'] = dict(
+    level='exploration', builds={'vfilter': dict(pkg='./cmd/vfilter', overlay='shim')},
+    stages=[dict(name='loss', bin='vfilter', args=['-prop', 'C16'], shards=shards(4, 14), par=14, crash_is_violation=True)],
+    need_counters=['datagrams', 'forwarded', 'statistical_streams'],
+)
+
+_vf = {'vfilter_race': dict(pkg='./cmd/vfilter', overlay='shim', race=True)}
+PROPS['C16']['stages'][0]['replay'] = 'rerun'
+PROPS['C14'] = dict(
+    level='exploration', builds=_vf,
+    stages=[dict(name='delay@timer%d' % m, bin='vfilter_race', args=['-prop', 'C14'], shards=shards(4, 8), par=4,
+                 env={'GODEBUG': 'asynctimerchan=%d' % m}, crash_is_violation=True, crash_key='delay:crash', group='g%d' % m) for m in (1, 0)],
+    need_counters=['datagrams', 'cases_filter', 'cases_router', 'arrivals_within_100us_of_a_due_time'],
+)
+
+PROPS['C15'] = dict(
+    level='exploration', builds=_vf,
+    stages=[dict(name='tbf', bin='vfilter_race', args=['-prop', 'C15'], shards=shards(4, 8), par=4, crash_is_violation=True, crash_key='tbf:crash')],
+    need_counters=['datagrams', 'forwarded', 'windows_checked', 'single_sender_runs', 'multi_sender_runs', 'drops_with_full_queue'],
+)
